@@ -198,6 +198,11 @@ def world_view(order, market):
     return v
 
 
+def _fresh(s):
+    """an equal but distinct string object, as a value read from a file / a message is (never the interned literal)"""
+    return "".join(list(s)) if isinstance(s, str) else s
+
+
 def exposure_view(order):
     """Fields the exchange itself reports for a bet; input of the brute-force exposure oracle (C01, C16)."""
     ot = order.order_type
@@ -958,7 +963,7 @@ class ScriptedStrategy(BaseStrategy):
             elif act.get("ladder") == "FINEST":
                 kw = dict(price_ladder_definition="FINEST")
             order_type = LimitOrder(
-                act["price"], act["size"], persistence_type=act.get("persistence", "LAPSE"), time_in_force=act.get("tif"), min_fill_size=act.get("min_fill"), **kw
+                act["price"], act["size"], persistence_type=_fresh(act.get("persistence", "LAPSE")), time_in_force=_fresh(act.get("tif")), min_fill_size=act.get("min_fill"), **kw
             )
         elif ot == "LOC":
             order_type = LimitOnCloseOrder(act["liability"], act["price"])
